@@ -3,15 +3,17 @@
 import sys, os, shutil, json, re
 pid, n = sys.argv[1], sys.argv[2]
 detected, note = sys.argv[3], (sys.argv[4] if len(sys.argv) > 4 else "")
-wt = "/tmp/seed_%s" % pid
-dst = "/verif/seeded/%s-m%s" % (pid, n)
+root = os.environ.get("SEEDROOT", "/tmp/seed")
+tag = os.environ.get("SEEDTAG", "")
+wt = "%s_%s" % (root, pid)
+dst = "/verif/seeded/%s%s-m%s" % (pid, tag, n)
 os.makedirs(dst, exist_ok=True)
 shutil.copy("%s/mutation_%s.diff" % (wt, n), dst + "/patch.diff")
 shutil.copy("%s/mutation_%s.md" % (wt, n), dst + "/description.md")
 if os.path.exists(dst + "/demo"):
     shutil.rmtree(dst + "/demo")
 shutil.copytree("%s/demo_%s" % (wt, n), dst + "/demo", ignore=shutil.ignore_patterns("target", "Cargo.lock"))
-conf = open("/verif/.cache/seedtests/confirm-%s-%s.log" % (pid, n)).read().strip().splitlines()[-1]
+conf = open("/verif/.cache/seedtests/confirm%s-%s-%s.log" % (tag, pid, n)).read().strip().splitlines()[-1]
 md = open(dst + "/description.md").read()
 m = re.search(r"(?is)##\s*what it needs.*?\n(.*?)(\n## |\Z)", md)
 needs = (m.group(1).strip()[:1200] if m else "see description.md")
